@@ -8,7 +8,7 @@ from .common import ScriptedApp, build_request, token_body, AppExc
 
 PROPERTY = "C11"
 LEVEL = "exploration"
-BUDGET = {"quick": 40, "thorough": 600}
+BUDGET = {"quick": 60, "thorough": 600}
 CAUSES = ["conn_close", "http10", "bad_request", "too_few_bytes", "too_few_bytes_zero", "exc_after_head", "no_length",
           "client_fin", "client_rst", "bad_chunk", "oversize_body", "send_error", "recv_error"]
 FOLLOW = ["complete", "partial", "garbage", "complete_with_body"]
